@@ -101,6 +101,12 @@ pub mod hash_set {
     }
 }
 
+#[cfg(griddle_verif)]
+pub mod verif {
+    //! Read-only introspection used by external verification harnesses.
+    pub use crate::raw::VerifState;
+}
+
 pub use crate::map::HashMap;
 pub use crate::set::HashSet;
 
